@@ -199,11 +199,11 @@ fn run_op(i: usize, e: &Envelope, src: &mut Src) -> &'static str {
         31 => { let v = |_: Envelope, _: usize, _: EdgeType, _: Option<()>| -> Option<()> { None }; e.walk(false, &v); e.walk(true, &v); "walk" }
         32 => { let _ = e.try_as::<String>().is_ok(); let _ = e.try_as::<u64>().is_ok(); let _ = e.try_as::<Digest>().is_ok(); let _ = e.try_as::<Signature>().is_ok(); "try_as" }
         // ---- format
-        33 => { let _ = e.format(); "format" }
+        33 => { let _ = e.format(); let _ = format!("{}", e); let _ = format!("{:?}", e); "format" }
         34 => { let _ = e.format_flat(); "format_flat" }
         35 => { let _ = e.tree_format(false); "tree_format(false)" }
         36 => { let _ = e.tree_format(true); "tree_format(true)" }
-        37 => { let _ = e.tree_format_with_target(src.bool(), &hs); "tree_format_with_target" }
+        37 => { let _ = e.tree_format_with_target(src.bool(), &hs); let c = bc_envelope::FormatContext::default(); let _ = e.tree_format_with_target_opt(true, &hs, Some(&c)); let _ = e.tree_format_with_target_opt(false, &hs, None); "tree_format_with_target" }
         38 => { let _ = e.diagnostic(); "diagnostic" }
         39 => { let _ = e.diagnostic_annotated(); "diagnostic_annotated" }
         40 => { let _ = e.hex(); "hex" }
@@ -220,22 +220,22 @@ fn run_op(i: usize, e: &Envelope, src: &mut Src) -> &'static str {
         50 => { let _ = e.add_optional_assertion(text_pred, if src.bool() { Some(1) } else { None }); let _ = e.add_nonempty_string_assertion(text_pred, if src.bool() { "" } else { "s" }); "add_optional_assertion" }
         51 => { let _ = e.add_assertion_if(src.bool(), text_pred, 1); let _ = e.add_assertion_envelope_if(src.bool(), a_child.clone()).is_ok(); "add_assertion_if" }
         52 => { let _ = e.add_assertion_salted(text_pred, 1, src.bool()); "add_assertion_salted" }
-        53 => { let _ = e.add_assertion_envelope_salted(a_child.clone(), src.bool()).is_ok(); let _ = e.add_optional_assertion_envelope_salted(Some(e.subject()), true).is_ok(); "add_assertion_envelope_salted" }
+        53 => { let _ = e.add_assertion_envelope_salted(a_child.clone(), src.bool()).is_ok(); let _ = e.add_optional_assertion_envelope_salted(Some(e.subject()), true).is_ok(); let mut batch = vec![Envelope::new_assertion("batch", 1), Envelope::new_assertion("batch", 2).elide()]; if a_child.is_subject_assertion() || a_child.is_subject_obscured() { batch.push(a_child.clone()); } let _ = e.add_assertions_salted(&batch, true); let _ = e.add_assertions_salted(&batch, false); "add_assertion_envelope_salted" }
         54 => { let _ = e.remove_assertion(a_child.clone()); let _ = e.remove_assertion(e.clone()); "remove_assertion" }
         55 => { let _ = e.replace_assertion(a_child.clone(), Envelope::new_assertion("r", 1)).is_ok(); let _ = e.replace_assertion(a_child.clone(), e.subject()).is_ok(); "replace_assertion" }
         56 => { let _ = e.replace_subject(Envelope::new("s")); let _ = e.replace_subject(a_child.clone()); let _ = e.replace_subject(e.clone()); "replace_subject" }
         57 => { let _ = e.wrap_envelope(); "wrap_envelope" }
         58 => { let _ = e.unwrap_envelope().is_ok(); "unwrap_envelope" }
-        59 => { let _ = e.add_salt(); "add_salt" }
-        60 => { let _ = e.add_salt_with_len(src.below(40)).is_ok(); "add_salt_with_len" }
-        61 => { let a = src.below(40); let b = a + src.below(40); let _ = e.add_salt_in_range(a..=b).is_ok(); "add_salt_in_range" }
+        59 => { let _ = e.add_salt(); let mut r = bc_rand::SeededRandomNumberGenerator::new([1, 2, 3, 4]); let _ = e.add_salt_using(&mut r); let _ = e.add_salt_instance(bc_components::Salt::new_with_len(8).unwrap()); "add_salt" }
+        60 => { let n = src.below(40); let _ = e.add_salt_with_len(n).is_ok(); let mut r = bc_rand::SeededRandomNumberGenerator::new([1, 2, 3, 4]); let _ = e.add_salt_with_len_using(n, &mut r).is_ok(); "add_salt_with_len" }
+        61 => { let a = src.below(40); let b = a + src.below(40); let _ = e.add_salt_in_range(a..=b).is_ok(); let mut r = bc_rand::SeededRandomNumberGenerator::new([1, 2, 3, 4]); let _ = e.add_salt_in_range_using(&(a..=b), &mut r).is_ok(); "add_salt_in_range" }
         62 => { let _ = e.add_type(bridge::known(200)); let _ = e.add_type("T"); "add_type" }
         63 => { let _ = e.add_attachment(a_child.clone(), "v", if src.bool() { Some("c") } else { None }); "add_attachment" }
         // ---- obscure
         64 => { let _ = e.elide(); "elide" }
-        65 => { let _ = e.elide_removing_set(&hs); let _ = e.elide_revealing_set(&hs); "elide_*_set" }
-        66 => { let act = action_of(gen_obs(src)); let _ = e.elide_removing_set_with_action(&hs, &act); "elide_removing_set_with_action" }
-        67 => { let act = action_of(gen_obs(src)); let _ = e.elide_revealing_set_with_action(&hs, &act); "elide_revealing_set_with_action" }
+        65 => { let _ = e.elide_removing_set(&hs); let _ = e.elide_revealing_set(&hs); let _ = e.elide_set(&hs, true); let _ = e.elide_set(&hs, false); let p: Vec<&dyn DigestProvider> = some_digests.iter().map(|d| d as &dyn DigestProvider).collect(); let _ = e.elide_array(&p, true); let _ = e.elide_array(&p, false); let _ = e.elide_target(&a_child, true); let _ = e.elide_target(&a_child, false); "elide_*_set" }
+        66 => { let act = action_of(gen_obs(src)); let _ = e.elide_removing_set_with_action(&hs, &act); let _ = e.elide_set_with_action(&hs, false, &act); let p: Vec<&dyn DigestProvider> = some_digests.iter().map(|d| d as &dyn DigestProvider).collect(); let _ = e.elide_array_with_action(&p, false, &act); let _ = e.elide_target_with_action(&a_child, false, &act); "elide_removing_set_with_action" }
+        67 => { let act = action_of(gen_obs(src)); let _ = e.elide_revealing_set_with_action(&hs, &act); let _ = e.elide_set_with_action(&hs, true, &act); let p: Vec<&dyn DigestProvider> = some_digests.iter().map(|d| d as &dyn DigestProvider).collect(); let _ = e.elide_array_with_action(&p, true, &act); let _ = e.elide_target_with_action(&a_child, true, &act); "elide_revealing_set_with_action" }
         68 => { let p: Vec<&dyn DigestProvider> = some_digests.iter().map(|d| d as &dyn DigestProvider).collect(); let act = action_of(gen_obs(src)); let _ = e.elide_removing_array(&p); let _ = e.elide_revealing_array(&p); let _ = e.elide_removing_array_with_action(&p, &act); let _ = e.elide_revealing_array_with_action(&p, &act); "elide_*_array" }
         69 => { let act = action_of(gen_obs(src)); let _ = e.elide_removing_target(&a_child); let _ = e.elide_revealing_target(&a_child); let _ = e.elide_removing_target_with_action(&a_child, &act); let _ = e.elide_revealing_target_with_action(&a_child, &act); "elide_*_target" }
         70 => { let _ = e.unelide(a_child.clone()).is_ok(); let _ = e.elide().unelide(e.clone()).is_ok(); "unelide" }
@@ -243,7 +243,7 @@ fn run_op(i: usize, e: &Envelope, src: &mut Src) -> &'static str {
         72 => { let _ = e.compress_subject().is_ok(); "compress_subject" }
         73 => { let _ = e.uncompress().is_ok(); "uncompress" }
         74 => { let _ = e.uncompress_subject().is_ok(); "uncompress_subject" }
-        75 => { let _ = e.encrypt_subject(&key).is_ok(); "encrypt_subject" }
+        75 => { let _ = e.encrypt_subject(&key).is_ok(); let _ = e.encrypt_subject_opt(&key, Some(bc_components::Nonce::from_data_ref([3u8; 12]).unwrap())).is_ok(); "encrypt_subject" }
         76 => { let _ = e.decrypt_subject(&key).is_ok(); "decrypt_subject" }
         77 => { let _ = e.decrypt_subject(&wrong_key).is_ok(); "decrypt_subject(wrong key)" }
         78 => { let _ = e.encrypt(&key); "encrypt" }
@@ -256,20 +256,20 @@ fn run_op(i: usize, e: &Envelope, src: &mut Src) -> &'static str {
         84 => { let _ = e.verify_signature_from_returning_metadata(&sk.public).is_ok(); "verify_signature_from_returning_metadata" }
         85 => { let v: Vec<&dyn Verifier> = vec![&sk.public, &pool.sig[0].public]; let t = if src.bool() { None } else { Some(src.below(4)) }; let _ = e.has_signatures_from_threshold(&v, t).is_ok(); let _ = e.verify_signatures_from_threshold(&v, t).is_ok(); let _ = e.has_signatures_from(&v).is_ok(); let _ = e.verify_signatures_from(&v).is_ok(); "has_signatures_from_threshold" }
         86 => { let _ = e.verify(&sk.public).is_ok(); let _ = e.verify_returning_metadata(&sk.public).is_ok(); "verify" }
-        87 => { let _ = e.add_signature_opt(&sk.private, sk.options(), None); "add_signature" }
-        88 => { let md = bc_envelope::SignatureMetadata::new().with_assertion(known_values::NOTE, "m"); let _ = e.add_signature_opt(&sk.private, sk.options(), Some(md)); "add_signature(metadata)" }
+        87 => { let _ = e.add_signature_opt(&sk.private, sk.options(), None); let ks: Vec<&dyn bc_components::Signer> = vec![&pool.sig[0].private, &pool.sig[2].private]; let _ = e.add_signatures(&ks); "add_signature" }
+        88 => { let md = bc_envelope::SignatureMetadata::new().with_assertion(known_values::NOTE, "m"); let _ = e.add_signature_opt(&sk.private, sk.options(), Some(md.clone())); let _ = e.add_signatures_opt(&[(&sk.private as &dyn bc_components::Signer, sk.options(), Some(md)), (&pool.sig[0].private as &dyn bc_components::Signer, None, None)]); "add_signature(metadata)" }
         89 => { let _ = e.sign_opt(&sk.private, sk.options()); "sign" }
         90 => { let d = *e.subject().digest().data(); let sig = bc_components::Signer::sign_with_options(&sk.private, &d.as_slice(), sk.options()).unwrap(); let _ = e.is_verified_signature(&sig, &sk.public); let _ = e.verify_signature(&sig, &pool.sig[0].public).is_ok(); let _ = e.make_signed_assertion(&sig, if src.bool() { Some("note") } else { None }); "is_verified_signature" }
         91 => { let _ = e.recipients().is_ok(); "recipients" }
         92 => { let _ = e.decrypt_subject_to_recipient(&ek.private).is_ok(); "decrypt_subject_to_recipient" }
         93 => { let _ = e.decrypt_to_recipient(&ek.private).is_ok(); "decrypt_to_recipient" }
-        94 => { let _ = e.add_recipient(&ek.public, &key); "add_recipient" }
+        94 => { let _ = e.add_recipient(&ek.public, &key); let n = bc_components::Nonce::from_data_ref([3u8; 12]).unwrap(); let _ = e.add_recipient_opt(&ek.public, &key, Some(&n)); let _ = e.encrypt_subject_to_recipient_opt(&ek.public, Some(&n)).is_ok(); let r: Vec<&dyn bc_components::Encrypter> = vec![&ek.public, &pool.enc[1].public]; let _ = e.encrypt_subject_to_recipients_opt(&r, Some(&n)).is_ok(); "add_recipient" }
         95 => { let _ = e.encrypt_subject_to_recipient(&ek.public).is_ok(); let r: Vec<&dyn bc_components::Encrypter> = vec![&ek.public, &pool.enc[0].public]; let _ = e.encrypt_subject_to_recipients(&r).is_ok(); "encrypt_subject_to_recipient(s)" }
         96 => { let _ = e.encrypt_to_recipient(&ek.public); "encrypt_to_recipient" }
         97 => { let _ = e.unseal(&sk.public, &ek.private).is_ok(); "unseal" }
         98 => { let _ = e.seal_opt(&sk.private, &ek.public, sk.options()); "seal" }
         99 => { let _ = Envelope::sskr_join(&[e]).is_ok(); let _ = Envelope::sskr_join(&[e, &a_child]).is_ok(); "sskr_join" }
-        100 => { let spec = SSKRSpec::new(1, vec![SSKRGroupSpec::new(1 + src.below(2), 2).unwrap()]).unwrap(); let _ = e.sskr_split(&spec, &key).map(|s| { let flat: Vec<Envelope> = s.into_iter().flatten().collect(); let refs: Vec<&Envelope> = flat.iter().collect(); let _ = Envelope::sskr_join(&refs).is_ok(); }); let _ = e.sskr_split_flattened(&spec, &key).is_ok(); "sskr_split" }
+        100 => { let spec = SSKRSpec::new(1, vec![SSKRGroupSpec::new(1 + src.below(2), 2).unwrap()]).unwrap(); let _ = e.sskr_split(&spec, &key).map(|s| { let flat: Vec<Envelope> = s.into_iter().flatten().collect(); let refs: Vec<&Envelope> = flat.iter().collect(); let _ = Envelope::sskr_join(&refs).is_ok(); }); let _ = e.sskr_split_flattened(&spec, &key).is_ok(); let mut r = bc_rand::SeededRandomNumberGenerator::new([5, 6, 7, 8]); let _ = e.sskr_split_using(&spec, &key, &mut r).is_ok(); "sskr_split" }
         // ---- types / attachments
         101 => { let _ = e.types(); "types" }
         102 => { let _ = e.get_type().is_ok(); "get_type" }
@@ -277,7 +277,7 @@ fn run_op(i: usize, e: &Envelope, src: &mut Src) -> &'static str {
         104 => { let _ = e.attachments().is_ok(); "attachments" }
         105 => { let v = if src.bool() { Some("com.example") } else { None }; let c = if src.bool() { Some("v1") } else { None }; let _ = e.attachments_with_vendor_and_conforms_to(v, c).is_ok(); let _ = e.attachment_with_vendor_and_conforms_to(v, c).is_ok(); "attachments_with_vendor_and_conforms_to" }
         106 => { let _ = (e.attachment_payload().is_ok(), e.attachment_vendor().is_ok(), e.attachment_conforms_to().is_ok(), e.validate_attachment().is_ok()); let _ = (a_child.attachment_payload().is_ok(), a_child.attachment_vendor().is_ok(), a_child.attachment_conforms_to().is_ok(), a_child.validate_attachment().is_ok()); "attachment_payload/vendor/conforms_to/validate" }
-        107 => { let _ = Attachments::try_from_envelope(e).map(|a| a.add_to_envelope(Envelope::new("x"))).is_ok(); "Attachments::try_from_envelope" }
+        107 => { let _ = Attachments::try_from_envelope(e).map(|a| a.add_to_envelope(Envelope::new("x"))).is_ok(); let _ = Attachments::try_from_envelope(e).map(|mut a| { let x = a.add_to_envelope(e.clone()); a.add(e.clone(), "v", Some("c")); a.add(a_child.clone(), "", None::<&str>); let y = a.add_to_envelope(x); let _ = a.get(&e.digest().into_owned()); let _ = a.remove(&a_child.digest().into_owned()); let _ = a.is_empty(); a.clear(); y }).is_ok(); let _ = Envelope::new_attachment(e.clone(), "v", None).validate_attachment().is_ok(); "Attachments::try_from_envelope" }
         // ---- parse
         108 => { let _ = Expression::try_from(e.clone()).is_ok(); let f = Function::from(1u64); let _ = Expression::try_from((e.clone(), Some(&f))).is_ok(); "Expression::try_from" }
         109 => { let _ = Request::try_from(e.clone()).map(|r| (r.summary(), r.to_string())).is_ok(); let f = Function::from(1u64); let _ = Request::try_from((e.clone(), Some(&f))).is_ok(); "Request::try_from" }
